@@ -145,5 +145,11 @@ def rfwd_forwarding(chk: Check) -> None:
     shared.forwarding_rule(chk, "C20.FWD", ('specs/graphql/',), "GraphQL case / strategy options", 2)
 
 
+def r4_client_schema_single_source(chk: Check) -> None:
+    from . import shared
+
+    shared.lazy_field_single_writer_rule(chk, "C20.R4", {"specs/graphql/schemas.py:GraphQLSchema.client_schema": "self.raw_schema"}, "the GraphQL schema queries are generated from and validated against is `build_client_schema(raw_schema)` - the introspection form, which carries no SDL-only default-value AST nodes and no deprecated arguments")
+
+
 def rules(tier: str) -> list:  # type: ignore[type-arg]
-    return [r1_factory_plumbing, r2_enumeration, r3_transport_body, rfwd_forwarding]
+    return [r1_factory_plumbing, r2_enumeration, r3_transport_body, r4_client_schema_single_source, rfwd_forwarding]
